@@ -40,6 +40,8 @@ func main() {
 		os.Exit(runTreeReplay(os.Args[2:]))
 	case "cli-replay":
 		os.Exit(runCliReplay(os.Args[2:]))
+	case "traversal-replay":
+		os.Exit(runTraversalReplay(os.Args[2:]))
 	case "hashfuzz":
 		os.Exit(runHashFuzz(os.Args[2:]))
 	case "reader-replay":
